@@ -1,11 +1,11 @@
 SPECIFICATION Spec
 CONSTANTS N = 2
-  Walker = "nametree"
-  MaxDepth = 4
+  Walkers = {"outline"}
+  MaxDepth = 1
   MaxChain = 3
-  StackCap = 12
-  G_SEEN = FALSE
-  G_DEPTH = FALSE
+  StackCap = 1
+  G_SEEN = TRUE
+  G_DEPTH = TRUE
   G_SCALAR = TRUE
   G_STMFIRST = TRUE
   G_CHAIN = TRUE
